@@ -9,6 +9,7 @@ package remote
 
 import (
 	"context"
+	"errors"
 	"fmt"
 	"net"
 	"testing"
@@ -61,10 +62,46 @@ func TestVerif_C16Remote(t *testing.T) {
 				stored = fmt.Sprintf("(Some (%s, {| e0 := %s; e1 := %s; e2 := %s |}))", cZ(se.Code),
 					cZ(se.EnhancedCode[0]), cZ(se.EnhancedCode[1]), cZ(se.EnhancedCode[2]))
 			}
-			out.Case(fmt.Sprintf("{| m_fails := %s; m_stored := %s; m_temp := %s |}", cList(fails), stored,
+			out.Case(fmt.Sprintf("{| m_lookup := None; m_fails := %s; m_stored := %s; m_temp := %s |}", cList(fails), stored,
 				cBool(exterrors.IsTemporaryOrUnspec(rerr))))
 			n++
 		}
 	}
 	out.Stat("mx-sets", n)
+
+	// the MX lookup itself fails: the usual ways (no such name, SERVFAIL or a time-out) and unusual
+	// ones (an answer the resolver reports without any flag, or cannot parse)
+	lookups := []struct {
+		err  error
+		temp bool
+	}{
+		{&net.DNSError{Err: "no such host", Name: "example.invalid", IsNotFound: true}, false},
+		{&net.DNSError{Err: "server misbehaving", Name: "example.invalid", IsTemporary: true}, true},
+		{&net.DNSError{Err: "i/o timeout", Name: "example.invalid", IsTimeout: true}, true},
+		{&net.DNSError{Err: "server misbehaving", Name: "example.invalid"}, false},
+		{&net.DNSError{Err: "cannot unmarshal DNS message", Name: "example.invalid"}, false},
+		{errors.New("dns: bad rdata"), false},
+	}
+	for i, lk := range lookups {
+		zones := map[string]mockdns.Zone{"example.invalid.": {Err: lk.err}}
+		tgt := testTarget(t, zones, nil, nil)
+		d, err := tgt.Start(ctx, &module.MsgMetadata{ID: fmt.Sprintf("v16l%d", i)}, "sender@example.com")
+		if err != nil {
+			t.Fatal(err)
+		}
+		rerr := d.AddRcpt(ctx, "rcpt@example.invalid", smtp.RcptOptions{})
+		d.Abort(ctx)
+		tgt.Close()
+		if rerr == nil {
+			t.Fatalf("lookup case %d: a destination whose MX lookup fails accepted the recipient", i)
+		}
+		stored := "None"
+		if se := queue.VerifToSMTPErr(rerr); se != nil {
+			stored = fmt.Sprintf("(Some (%s, {| e0 := %s; e1 := %s; e2 := %s |}))", cZ(se.Code),
+				cZ(se.EnhancedCode[0]), cZ(se.EnhancedCode[1]), cZ(se.EnhancedCode[2]))
+		}
+		out.Case(fmt.Sprintf("{| m_lookup := Some %s; m_fails := []; m_stored := %s; m_temp := %s |}", cBool(lk.temp), stored,
+			cBool(exterrors.IsTemporaryOrUnspec(rerr))))
+	}
+	out.Stat("mx-lookup-failures", len(lookups))
 }
